@@ -205,7 +205,9 @@ func (a *Air) Process(op *types.Operation) (*types.Operation, error) {
 	if err != nil {
 		return nil, err
 	}
-	a.Ops = append(a.Ops, op.ID)
+	if !op.IsSigningState() {
+		a.Ops = append(a.Ops, op.ID)
+	}
 	bz, err := os.ReadFile(path)
 	if err != nil {
 		return nil, err
